@@ -34,6 +34,7 @@ def gen_parse():
     node = chain[0]
     handled = []
     else_kind = None
+    flatten_default_only = False
     while True:
         t = ast.unparse(node.test)
         m = re.fullmatch(r"isinstance\(layer, ([\w.]+)\)", t)
@@ -51,6 +52,8 @@ def gen_parse():
             action = "Dense" if "self.layer_order.append(('linear', len(self.linear_layers) - 1))" in body_src and "self.linear_in_dims.append(layer.in_dim)" in body_src else _fail("dense branch")
         elif cls == "Flatten":
             action = "Flat" if "self.layer_order.append(('flatten', 0))" in body_src else _fail("flatten branch")
+            # only the default Flatten() is what the emitters implement: any other start_dim / end_dim must be refused here
+            flatten_default_only = "if (layer.start_dim, layer.end_dim) != (1, -1):\nraise ValueError" in body_src
         elif cls == "GroupSum":
             action = "GSum"
         else:
@@ -79,6 +82,7 @@ def gen_parse():
     out += "Inductive else_kind := ElseRaise | ElseSkip.\n"
     out += "Definition parse_handled : list (string * string) :=\n  [" + "; ".join(f'("{c}", "{a}")' for c, a in handled) + "].\n"
     out += f"Definition parse_else : else_kind := {else_kind}.\n"
+    out += f"Definition flatten_default_only : bool := {'true' if flatten_default_only else 'false'}.\n"
     out += f"Definition parse_calls_validate : bool := {'true' if validates else 'false'}.\n"
     out += f"Definition parse_requires_logic_layer : bool := {'true' if no_layers else 'false'}.\n"
     out += "Definition structure_checks : list (string * bool) :=\n  [" + "; ".join(
